@@ -136,6 +136,7 @@ type Contract struct {
 	Depth       string
 	RecDec      SExpr // `recursion decreases e`: e (over the parameters) is >= 0 and strictly smaller at every self-call
 	RecDecText  string
+	RecRank     int
 }
 
 // CallAssert: `callsite F N requires [label:] expr` - at the N-th call (in source order) of a function named F inside
@@ -180,6 +181,7 @@ type FrameDecl struct {
 	File     string
 	IsCall   bool // callers K: ... instead of frame
 	IsArg    bool // argpolicy
+	IsElems  bool // frameelems [*]T: elements of slices of that type are never assigned in place
 	ArgIndex int
 	ArgLit   string
 }
@@ -224,7 +226,7 @@ type tok struct {
 var clauseKW = map[string]bool{
 	"requires": true, "ensures": true, "defines": true, "modifies": true, "loop": true, "invariant": true, "decreases": true,
 	"property": true, "wraps": true, "func": true, "pred": true, "pure": true, "trusted": true, "inline": true,
-	"frame": true, "callers": true, "type": true, "package": true, "nosafety": true, "note": true, "recursion": true, "ghost": true, "argpolicy": true, "ufunc": true, "abstract": true, "axiom": true, "purecalls": true, "nocallbacks": true, "callsite": true, "closure": true, "callback": true,
+	"frame": true, "callers": true, "type": true, "package": true, "nosafety": true, "note": true, "recursion": true, "ghost": true, "argpolicy": true, "ufunc": true, "abstract": true, "axiom": true, "purecalls": true, "nocallbacks": true, "callsite": true, "closure": true, "frameelems": true, "callback": true,
 }
 
 func lexSpec(lines []string, lineNos []int) ([]tok, error) {
@@ -745,6 +747,13 @@ func parseSpecFile(path string, defaultPkg string) (sf *SpecFile, err error) {
 				p.next()
 				cur.RecDec = p.expr(1)
 				cur.RecDecText = cur.RecDec.String()
+				if p.isKW("rank") {
+					// mutual recursion: (measure, rank) decreases lexicographically at every call between functions
+					// that declare a measure
+					p.next()
+					cur.RecRank, _ = strconv.Atoi(p.next().s)
+					cur.RecDecText += fmt.Sprintf(" rank %d", cur.RecRank)
+				}
 			} else {
 				cur.Depth = p.next().s
 			}
@@ -854,6 +863,36 @@ func parseSpecFile(path string, defaultPkg string) (sf *SpecFile, err error) {
 			}
 			sf.Frames = append(sf.Frames, fd)
 			cur = nil
+		case "frameelems":
+			// frameelems [*]T: none [property ...] - no statement of the module assigns an element of a []T / []*T in
+			// place (x[i] = v, x[i]++, copy(x, ...)): such arrays only change by being rebuilt (append, make)
+			fd := &FrameDecl{Pkg: sf.Pkg, Line: t.line, File: path, IsElems: true}
+			name := ""
+			if p.isOp("*") {
+				p.next()
+				name = "*"
+			}
+			name += p.next().s
+			fd.Comp = name
+			p.expect(":")
+			for !p.atClauseStart() {
+				n := p.next().s
+				for p.isOp(".") || p.isOp("/") {
+					sep := p.next().s
+					n += sep + p.next().s
+				}
+				fd.Funcs = append(fd.Funcs, n)
+				if !p.accept(",") {
+					break
+				}
+			}
+			if p.isKW("property") {
+				p.next()
+				for !p.atClauseStart() {
+					fd.Props = append(fd.Props, p.next().s)
+				}
+			}
+			sf.Frames = append(sf.Frames, fd)
 		case "frame", "callers":
 			fd := &FrameDecl{Pkg: sf.Pkg, Line: t.line, File: path, IsCall: t.s == "callers"}
 			name := p.next().s
